@@ -7,7 +7,12 @@ at the end of the unit (induction over the units of a name).  This module decide
 
     s.replace(a, b)                                 literal substitution
     P.sub(F, s) / re.sub(pattern, F, s[, flags])    regex substitution, F a replacement template, a lambda or a (nested / module) function
-    bytes(s, E).decode('unicode_escape') & co       the platform codec (modelled natively from its documentation)
+    bytes(s, E).decode('unicode_escape') & co       the platform codec (modelled natively from its documentation; E may be utf-8 / ascii /
+                                                    latin-1, with the backslashreplace handler, or raw_unicode_escape)
+or as ONE character loop (`while i < len(s)` index scanner with s[i] / s[i:j] / i += k, or `for c in s` state machine with flags, counters
+and buffers) that appends to an accumulator (LoopEval: the scan position is a concrete integer, characters are symbolic, the loop is
+followed until an iteration boundary at or after the unit's end where every LIVE loop-carried variable has its initial value again),
+optionally behind early exits `if <test>: return s` (decided by the caller on languages),
 
 WITHOUT running any of it: the unit text is a SYMBOLIC string (positions are constants, the variable `cp` = the character, the variables
 d0..dw-1 = the hex digits of its code point, and k0, k1.. = the characters of whatever follows, each with a set of possible values).  The
@@ -16,6 +21,10 @@ SETS (inside / disjoint); a test that cuts a set raises a case split, the variab
 each half (explicit case splits, unrealisable digit combinations pruned by arithmetic on the unit's range).  The replacement function is
 evaluated abstractly over the same symbolic strings (closed table of expression forms: group access, slicing, comparison with constants,
 dict lookup, int(x, 16), chr, concatenation, try/except KeyError ...); anything else -> AnalysisError.
+
+The same evaluator reads hand-written per-character ENCODERS (char_encoder: re.sub with a replacement function whose matches are single
+characters, ''.join(<expr> for c in s), str.translate with a literal table; ord / %x / format / hex / the unicode_escape codec applied to one
+character / helper functions inlined) and returns the unit table they implement.
 
 A unit HOLDS when every leaf of the case analysis ends exactly at the unit's end with the output normal form [cp] (universal, by normal
 form).  It is VIOLATED when some leaf has another output / overshoots / raises AND the leaf is realisable: a code point with those digits
@@ -302,7 +311,7 @@ class Matcher:
         self.items, self.flags = R.parse_pattern(pattern, flags)
         self.ngroups = self.items.state.groups - 1
         self.groupindex = dict(self.items.state.groupdict)
-        self._sets: Dict[int, R.CharSet] = {}
+        self._sets: Dict[Any, R.CharSet] = {}
         if self._min_width(list(self.items)) == 0:
             raise AnalysisError(f'{where}: the pattern {pattern!r} can match the empty string; substitution with empty matches is not modelled')
 
@@ -322,7 +331,7 @@ class Matcher:
         return n
 
     def _cs(self, op: Any, av: Any) -> R.CharSet:
-        key = id(av) if op is _SC.IN else hash((str(op), av if not isinstance(av, list) else 0))
+        key = ('in', id(av)) if op is _SC.IN else (str(op), av if not isinstance(av, list) else 0)
         cs = self._sets.get(key)
         if cs is None:
             cs = R.item_charset(op, av, self.flags)
@@ -1266,6 +1275,8 @@ class CodecStage:
     Latin-1 (utf-8: mojibake; latin-1: characters up to U+00FF survive; ascii: UnicodeEncodeError)."""
 
     SIMPLE = {'\\': '\\', "'": "'", '"': '"', 'a': '\a', 'b': '\b', 'f': '\f', 'n': '\n', 'r': '\r', 't': '\t', 'v': '\v'}
+    # encodings that turn every non-ASCII character into a numeric escape (or its Latin-1 byte): it survives the round through the decoder
+    KEEPS_NON_ASCII = ('ascii+backslashreplace', 'latin1+backslashreplace', 'rawunicodeescape')
 
     def __init__(self, enc: str, desc: str):
         self.enc, self.desc = enc, desc
@@ -1277,7 +1288,10 @@ class CodecStage:
         one = R.CharSet.of
         while i < n:
             if not subj.test(i, ASCII):
-                if self.enc == 'latin1' and subj.test(i, R.CharSet([(0x80, 0xFF)])):
+                if self.enc in self.KEEPS_NON_ASCII:
+                    # the character is written as \xNN / \uNNNN / \UNNNNNNNN (or as its Latin-1 byte) by the encoding step and read back by the decoder
+                    out.append(subj.atom(i))
+                elif self.enc == 'latin1' and subj.test(i, R.CharSet([(0x80, 0xFF)])):
                     out.append(subj.atom(i))
                 elif self.enc == 'utf8':
                     out.append(('bad', 'the UTF-8 bytes of the character read as Latin-1'))
@@ -1326,6 +1340,8 @@ class CodecStage:
                 i += 2
                 continue
             # unknown escape: the backslash stays, the next character is then read as an ordinary one
+            if self.enc in self.KEEPS_NON_ASCII and not subj.at_end(i + 1) and not subj.test(i + 1, ASCII):
+                raise AnalysisError(f'{self.desc}: a backslash in front of a non-ASCII character (the encoding step writes that character as an escape of its own); not modelled')
             if 'unknown escape kept' not in self.notes:
                 self.notes.append('unknown escape kept')
             out.append(('c', '\\'))
@@ -1339,6 +1355,442 @@ class IdentityStage:
 
     def scan(self, subj: Subject) -> Tuple[int, List[tuple]]:
         return subj.n, list(subj.text)
+
+
+# ---------------------------------------------------------------------------------------------------------------------
+# decoders written as a character loop (index scanner or state machine)
+# ---------------------------------------------------------------------------------------------------------------------
+
+
+class SubjStr:
+    """The decoder's parameter inside a loop decoder: the symbolic text of the unit followed by its continuation."""
+    __slots__ = ()
+
+
+class SLen:
+    """len(<the parameter>) + c."""
+    __slots__ = ('c',)
+
+    def __init__(self, c: int = 0):
+        self.c = c
+
+    def __eq__(self, o: object) -> bool:
+        return isinstance(o, SLen) and o.c == self.c
+
+    def __hash__(self) -> int:
+        return hash(('SLen', self.c))
+
+
+class _Continue(Exception):
+    pass
+
+
+class LoopEval(PyCallback):
+    """Abstract execution of `<initialisations>; while/for ...: <body>; return <accumulator>` over a symbolic text.  Integers (the scan
+    position) are concrete; characters are symbolic; whether a position exists past the unit's end is a case split (END).  The loop is
+    followed from the start of the unit until an iteration boundary at or after the unit's end where every loop-carried variable has its
+    initial value again: from there on the scan of the following text is the scan of a fresh text (alignment)."""
+
+    MAX_EXTRA = 12
+
+    def __init__(self, m: pf.Module, fn: pf.FuncDef, param: str, pre: List[ast.stmt], loop: ast.stmt, post: List[ast.stmt], ret: ast.AST, where: str):
+        self.m, self.outer, self.node, self.where = m, None, fn, where
+        self.fn = fn
+        self.param = param
+        self.pre, self.loop, self.post, self.ret = pre, loop, post, ret
+        self.subj = None
+        self.steps = 0
+        self.depth = 0
+        self.codec_units = None
+        self.consts = {}
+        self.desc = f'the character loop of {fn.name}'
+        # the accumulator named by the return expression
+        r = ret
+        self.acc_kind, self.acc = '', ''
+        if isinstance(r, ast.Call) and isinstance(r.func, ast.Attribute) and r.func.attr == 'join' and pf.const_str(r.func.value) == '' and len(r.args) == 1 \
+                and isinstance(r.args[0], ast.Name) and not r.keywords:
+            self.acc_kind, self.acc = 'list', r.args[0].id
+        elif isinstance(r, ast.Call) and isinstance(r.func, ast.Attribute) and r.func.attr == 'getvalue' and isinstance(r.func.value, ast.Name) and not r.args:
+            self.acc_kind, self.acc = 'sio', r.func.value.id
+        elif isinstance(r, ast.Name):
+            self.acc_kind, self.acc = 'str', r.id
+        else:
+            raise AnalysisError(f'{where}: unrecognised body (the loop decoder returns `{pf.nsrc(r)[:50]}`, not an accumulator)')
+        self.posvars: List[str] = []
+        self.loopvars: List[str] = []
+
+    def fail(self, e: ast.AST, what: str = 'construct') -> Any:
+        raise AnalysisError(f'{self.where}: {what} `{pf.nsrc(e)[:70]}` of the loop decoder is not in the table of modelled operations')
+
+    # ---- values specific to the loop form
+    def lookup(self, name: str, e: ast.AST) -> Any:
+        nd = _nested_def(self.fn, name)
+        if nd is not None:
+            return ('func', nd)
+        if name in pf.assignments(self.fn):
+            self.fail(e, f'use of the local {name} before it is bound in')
+        return super().lookup(name, e)
+
+    def exists(self, i: int) -> bool:
+        """Position i of the text exists (i < len(s))."""
+        assert self.subj is not None
+        if i < 0:
+            return True
+        if i < self.subj.n:
+            return True
+        return not self.subj.at_end(i)
+
+    def len_cmp(self, op: ast.cmpop, left: Any, right: Any, e: ast.AST) -> bool:
+        flip = {ast.Lt: ast.Gt, ast.LtE: ast.GtE, ast.Gt: ast.Lt, ast.GtE: ast.LtE, ast.Eq: ast.Eq, ast.NotEq: ast.NotEq}
+        t = type(op)
+        if t not in flip:
+            self.fail(e, 'comparison')
+        if isinstance(left, SLen) and isinstance(right, SLen):
+            d = left.c - right.c
+            return {ast.Lt: d < 0, ast.LtE: d <= 0, ast.Gt: d > 0, ast.GtE: d >= 0, ast.Eq: d == 0, ast.NotEq: d != 0}[t]
+        if isinstance(left, SLen):
+            left, right, t = right, left, flip[t]
+        if not isinstance(left, int) or isinstance(left, bool):
+            self.fail(e, 'comparison with the length in')
+        # left  t  len + c      <=>   (left - c)  t  len
+        x = left - right.c
+        if t is ast.Lt:      # x < len  <=> position x exists
+            return self.exists(x)
+        if t is ast.LtE:     # x <= len <=> position x-1 exists (or x <= 0)
+            return x <= 0 or self.exists(x - 1)
+        if t is ast.Gt:      # x > len  <=> not (x <= len)
+            return not (x <= 0 or self.exists(x - 1))
+        if t is ast.GtE:     # x >= len <=> not (x < len)
+            return not self.exists(x)
+        if t is ast.Eq:      # x == len <=> position x-1 exists and position x does not
+            return (x <= 0 or self.exists(x - 1)) and not self.exists(x) if x >= 0 else False
+        return not ((x <= 0 or self.exists(x - 1)) and not self.exists(x)) if x >= 0 else True
+
+    def ev(self, e: ast.AST, env: Dict[str, Any]) -> Any:
+        if isinstance(e, ast.Compare) and len(e.ops) == 1:
+            left = self.ev(e.left, env)
+            right = self.ev(e.comparators[0], env)
+            if isinstance(left, SLen) or isinstance(right, SLen):
+                return self.len_cmp(e.ops[0], left, right, e)
+            if any(isinstance(n, ast.Name) and n.id in self.posvars + self.loopvars[1:] for n in ast.walk(e)):
+                self.fail(e, 'test of the ABSOLUTE position (the scan of a unit must not depend on where it starts) in')
+            return self._cmp_values(e, [left, right])
+        if isinstance(e, ast.BinOp) and isinstance(e.op, (ast.Add, ast.Sub)):
+            a, b = self.ev(e.left, env), self.ev(e.right, env)
+            sign = 1 if isinstance(e.op, ast.Add) else -1
+            if isinstance(a, SLen) and isinstance(b, int) and not isinstance(b, bool):
+                return SLen(a.c + sign * b)
+            if isinstance(b, SLen) and isinstance(a, int) and not isinstance(a, bool) and sign == 1:
+                return SLen(b.c + a)
+            if isinstance(a, int) and isinstance(b, int) and not isinstance(a, bool) and not isinstance(b, bool):
+                return a + sign * b
+            if sign == 1 and isinstance(a, (str, SStr)) and isinstance(b, (str, SStr)):
+                return SStr(list(SStr.of(a).atoms) + list(SStr.of(b).atoms))
+            if sign == 1 and isinstance(a, list) and isinstance(b, list):
+                return a + b
+            self.fail(e, 'arithmetic')
+        if isinstance(e, ast.List):
+            return [self.ev(x, env) for x in e.elts]
+        if isinstance(e, ast.Subscript):
+            base = self.ev(e.value, env)
+            if isinstance(base, SubjStr):
+                assert self.subj is not None
+                if isinstance(e.slice, ast.Slice):
+                    if e.slice.step is not None:
+                        self.fail(e, 'slice with a step in')
+                    lo = 0 if e.slice.lower is None else self.ev(e.slice.lower, env)
+                    hi = None if e.slice.upper is None else self.ev(e.slice.upper, env)
+                    if not isinstance(lo, int) or isinstance(lo, bool) or lo < 0 or hi is None or not isinstance(hi, int) or isinstance(hi, bool) or hi < 0:
+                        self.fail(e, 'slice bounds (only s[a:b] with known non-negative bounds) in')
+                    out = []
+                    for i in range(lo, hi):
+                        if not self.exists(i):
+                            break
+                        out.append(self.subj.atom(i))
+                    return SStr(out)
+                i = self.ev(e.slice, env)
+                if not isinstance(i, int) or isinstance(i, bool) or i < 0:
+                    self.fail(e, 'index (only a known non-negative position) in')
+                if not self.exists(i):
+                    raise PyRaise('IndexError', 'string index out of range')
+                return SStr([self.subj.atom(i)])
+        if isinstance(e, ast.Call) and isinstance(e.func, ast.Name) and e.func.id == 'len' and len(e.args) == 1 and not e.keywords:
+            v = self.ev(e.args[0], env)
+            if isinstance(v, SubjStr):
+                if sp.module_bindings(self.m, 'len'):
+                    self.fail(e, 'rebound builtin len in')
+                return SLen(0)
+            if isinstance(v, list):
+                return len(v)
+        if isinstance(e, ast.Call) and isinstance(e.func, ast.Name) and e.func.id == 'StringIO' and not e.args and not e.keywords \
+                and sp.imports_of(self.m).get('StringIO') == 'io.StringIO' and 'StringIO' not in env:
+            return ['<sio>']
+        if isinstance(e, ast.Call) and isinstance(e.func, ast.Attribute) and pf.dotted(e.func) == 'io.StringIO' and not e.args and not e.keywords \
+                and sp.imports_of(self.m).get('io') == 'io' and 'io' not in env:
+            return ['<sio>']
+        if isinstance(e, ast.Dict):
+            return self.static_value(e, e)
+        if isinstance(e, ast.Call) and isinstance(e.func, ast.Attribute) and e.func.attr == 'join' and len(e.args) == 1 and not e.keywords:
+            sep = self.ev(e.func.value, env)
+            seq = self.ev(e.args[0], env)
+            if sep == '' and isinstance(seq, list) and all(isinstance(x, (str, SStr)) for x in seq):
+                out2: List[tuple] = []
+                for x in seq:
+                    out2 += list(SStr.of(x).atoms)
+                return SStr(out2)
+        return super().ev(e, env)
+
+    def _cmp_values(self, e: ast.Compare, vals: List[Any]) -> Any:
+        """A two-operand comparison with already evaluated operands (the generic evaluator re-evaluates; avoid double evaluation)."""
+        left, right = vals
+        op = e.ops[0]
+        if isinstance(left, SOrd) or isinstance(right, SOrd):
+            return self.ord_cmp(op, left, right, e)
+        if isinstance(op, (ast.Eq, ast.NotEq)):
+            if isinstance(left, list) or isinstance(right, list):
+                r = left == right
+            else:
+                r = self.str_eq(left, right, e)
+            return r if isinstance(op, ast.Eq) else not r
+        if isinstance(op, (ast.Is, ast.IsNot)):
+            if right is not None and left is not None and not isinstance(right, bool) and not isinstance(left, bool):
+                self.fail(e, 'identity comparison')
+            return (left is right) if isinstance(op, ast.Is) else (left is not right)
+        if isinstance(op, (ast.In, ast.NotIn)):
+            r = self.contains(left, right, e)
+            return r if isinstance(op, ast.In) else not r
+        if isinstance(left, int) and isinstance(right, int):
+            return {ast.Lt: left < right, ast.LtE: left <= right, ast.Gt: left > right, ast.GtE: left >= right}[type(op)]
+        self.fail(e, 'comparison')
+
+    def truth(self, v: Any, e: ast.AST) -> bool:
+        if isinstance(v, list):
+            return bool(v) if v != ['<sio>'] else True
+        return super().truth(v, e)
+
+    # ---- statements
+    def run(self, stmts: Sequence[ast.stmt], env: Dict[str, Any]) -> None:
+        for st in stmts:
+            self.steps += 1
+            if self.steps > 4000:
+                raise AnalysisError(f'{self.where}: evaluation budget of the loop decoder exceeded')
+            if isinstance(st, ast.AugAssign) and isinstance(st.op, ast.Add) and isinstance(st.target, ast.Name):
+                cur = env.get(st.target.id, None)
+                if st.target.id not in env:
+                    self.fail(st, 'augmented assignment to an unbound name in')
+                v = self.ev(st.value, env)
+                if isinstance(cur, int) and not isinstance(cur, bool) and isinstance(v, int) and not isinstance(v, bool):
+                    env[st.target.id] = cur + v
+                elif isinstance(cur, (str, SStr)) and isinstance(v, (str, SStr)):
+                    env[st.target.id] = SStr(list(SStr.of(cur).atoms) + list(SStr.of(v).atoms))
+                elif isinstance(cur, list) and isinstance(v, list) and cur[:1] != ['<sio>']:
+                    env[st.target.id] = cur + v
+                else:
+                    self.fail(st, 'augmented assignment')
+                continue
+            if isinstance(st, ast.AugAssign) and isinstance(st.op, ast.Sub) and isinstance(st.target, ast.Name) and isinstance(env.get(st.target.id), int):
+                v = self.ev(st.value, env)
+                if not isinstance(v, int) or isinstance(v, bool):
+                    self.fail(st, 'augmented assignment')
+                env[st.target.id] = env[st.target.id] - v
+                continue
+            if isinstance(st, ast.Expr) and isinstance(st.value, ast.Call) and isinstance(st.value.func, ast.Attribute) and isinstance(st.value.func.value, ast.Name) \
+                    and not st.value.keywords:
+                tgt = st.value.func.value.id
+                cur = env.get(tgt)
+                meth = st.value.func.attr
+                if isinstance(cur, list) and meth in ('append', 'write') and len(st.value.args) == 1:
+                    v = self.ev(st.value.args[0], env)
+                    if not isinstance(v, (str, SStr)):
+                        self.fail(st, 'appended value (not a string) in')
+                    if (meth == 'write') != (cur[:1] == ['<sio>']):
+                        self.fail(st, 'method of the accumulator in')
+                    env[tgt] = cur + [v]
+                    continue
+                if isinstance(cur, list) and meth == 'extend' and len(st.value.args) == 1 and cur[:1] != ['<sio>']:
+                    v = self.ev(st.value.args[0], env)
+                    if isinstance(v, (str, SStr)):
+                        v = [SStr([a]) for a in SStr.of(v).atoms]
+                    if not isinstance(v, list):
+                        self.fail(st, 'extended value in')
+                    env[tgt] = cur + v
+                    continue
+                if isinstance(cur, list) and meth == 'clear' and not st.value.args and cur[:1] != ['<sio>']:
+                    env[tgt] = []
+                    continue
+                if isinstance(cur, list) and meth == 'close' and not st.value.args:
+                    continue
+                self.fail(st, 'statement')
+            if isinstance(st, ast.Continue):
+                raise _Continue()
+            if isinstance(st, ast.Assign) and len(st.targets) == 1 and isinstance(st.targets[0], ast.Name):
+                env[st.targets[0].id] = self.ev(st.value, env)
+                continue
+            if isinstance(st, (ast.While, ast.For)):
+                self.fail(st, 'nested loop')
+            super().run([st], env)
+
+    # ---- the loop
+    @staticmethod
+    def _upward_exposed(stmts: Sequence[ast.stmt], assigned: set, exposed: set) -> set:
+        """Names that may be read before they are written when `stmts` run with `assigned` already written (collected into `exposed`);
+        returns the names definitely written afterwards."""
+        def loads(e: Optional[ast.AST]) -> None:
+            if e is None:
+                return
+            for n in ast.walk(e):
+                if isinstance(n, ast.Name) and isinstance(n.ctx, ast.Load) and n.id not in assigned:
+                    exposed.add(n.id)
+        assigned = set(assigned)
+        for st in stmts:
+            if isinstance(st, ast.Assign):
+                loads(st.value)
+                for t in st.targets:
+                    for n in ast.walk(t):
+                        if isinstance(n, ast.Name) and isinstance(n.ctx, ast.Store):
+                            assigned.add(n.id)
+                        elif isinstance(n, ast.Name):
+                            loads(n)
+            elif isinstance(st, ast.AugAssign):
+                loads(st.value)
+                if isinstance(st.target, ast.Name):
+                    if st.target.id not in assigned:
+                        exposed.add(st.target.id)
+                else:
+                    loads(st.target)
+            elif isinstance(st, ast.If):
+                loads(st.test)
+                a = LoopEval._upward_exposed(st.body, assigned, exposed)
+                b = LoopEval._upward_exposed(st.orelse, assigned, exposed)
+                assigned = a & b
+            elif isinstance(st, ast.Try):
+                LoopEval._upward_exposed(st.body, assigned, exposed)
+                for h in st.handlers:
+                    LoopEval._upward_exposed(h.body, assigned, exposed)
+            elif isinstance(st, (ast.Continue, ast.Pass)):
+                continue
+            else:
+                loads(st)
+        return assigned
+
+    def _live_at_head(self) -> set:
+        exposed: set = set()
+        loop = self.loop
+        if isinstance(loop, ast.While):
+            self._upward_exposed([ast.Expr(value=loop.test)], set(), exposed)
+            self._upward_exposed(loop.body, set(), exposed)
+        else:
+            self._upward_exposed(loop.body, set(self.loopvars), exposed)  # type: ignore[union-attr]
+        return exposed
+
+    def _state(self, env: Dict[str, Any]) -> Dict[str, Any]:
+        skip = {self.param, self.acc} | set(self.posvars) | set(self.loopvars)
+        live = self._live
+        out = {}
+        for k, v in env.items():
+            if k in skip or k not in live:
+                continue
+            out[k] = tuple(v.atoms) if isinstance(v, SStr) else (tuple(tuple(x.atoms) if isinstance(x, SStr) else x for x in v) if isinstance(v, list) else v)
+        return out
+
+    def acc_atoms(self, env: Dict[str, Any]) -> List[tuple]:
+        v = env.get(self.acc)
+        if self.acc_kind == 'str':
+            if not isinstance(v, (str, SStr)):
+                raise AnalysisError(f'{self.where}: the accumulator {self.acc} is not a string')
+            return list(SStr.of(v).atoms)
+        if not isinstance(v, list) or (self.acc_kind == 'sio') != (v[:1] == ['<sio>']):
+            raise AnalysisError(f'{self.where}: the accumulator {self.acc} is not the kind the return expression needs')
+        out: List[tuple] = []
+        for x in (v[1:] if self.acc_kind == 'sio' else v):
+            if not isinstance(x, (str, SStr)):
+                raise AnalysisError(f'{self.where}: the accumulator {self.acc} holds a non-string')
+            out += list(SStr.of(x).atoms)
+        return out
+
+    def scan(self, subj: Subject) -> Tuple[int, List[tuple]]:
+        self.subj = subj
+        self.steps = 0
+        env: Dict[str, Any] = {self.param: SubjStr()}
+        self.loopvars: List[str] = []
+        self.run(self.pre, env)
+        if self.acc not in env:
+            raise AnalysisError(f'{self.where}: the accumulator {self.acc} is not initialised in front of the loop')
+        loop = self.loop
+        idxvar = None
+        if isinstance(loop, ast.For):
+            it, tgt = loop.iter, loop.target
+            if isinstance(it, ast.Name) and it.id == self.param and isinstance(tgt, ast.Name):
+                chvar = tgt.id
+            elif isinstance(it, ast.Call) and pf.dotted(it.func) == 'enumerate' and len(it.args) == 1 and not it.keywords and isinstance(it.args[0], ast.Name) \
+                    and it.args[0].id == self.param and isinstance(tgt, ast.Tuple) and len(tgt.elts) == 2 and all(isinstance(x, ast.Name) for x in tgt.elts):
+                idxvar, chvar = tgt.elts[0].id, tgt.elts[1].id  # type: ignore[union-attr]
+            else:
+                raise AnalysisError(f'{self.where}: unrecognised body (loop `for {pf.nsrc(tgt)} in {pf.nsrc(it)[:30]}` is not over the characters of the parameter)')
+            if loop.orelse:
+                raise AnalysisError(f'{self.where}: unrecognised body (for-else)')
+            self.loopvars = [chvar] + ([idxvar] if idxvar else [])
+        elif loop.orelse:  # type: ignore[union-attr]
+            raise AnalysisError(f'{self.where}: unrecognised body (while-else)')
+        for n in ast.walk(loop):
+            if isinstance(n, (ast.Break, ast.Return, ast.Yield, ast.YieldFrom, ast.Await)):
+                raise AnalysisError(f'{self.where}: unrecognised body (`{type(n).__name__.lower()}` inside the loop is not modelled)')
+        self.posvars = []
+        if isinstance(loop, ast.While):
+            for n in ast.walk(loop.test):
+                if isinstance(n, ast.Name) and n.id != self.param and isinstance(n.ctx, ast.Load) and isinstance(env.get(n.id), int) \
+                        and not isinstance(env.get(n.id), bool) and n.id not in self.posvars:
+                    self.posvars.append(n.id)
+        self._live = self._live_at_head()
+        init = self._state(env)
+        pos = 0
+        ended = False
+        for _round in range(subj.n + self.MAX_EXTRA + 2):
+            # iteration boundary
+            if isinstance(loop, ast.While):
+                pvals = [env.get(v) for v in self.posvars]
+                if len(self.posvars) != 1 or not isinstance(pvals[0], int) or isinstance(pvals[0], bool):
+                    raise AnalysisError(f'{self.where}: unrecognised body (the while condition does not compare ONE position variable with the length)')
+                pos = pvals[0]
+            if pos >= subj.n and self._state(env) == init:
+                return pos, self.acc_atoms(env)
+            if pos > subj.n + self.MAX_EXTRA:
+                break
+            if isinstance(loop, ast.While):
+                if not self.truth(self.ev(loop.test, env), loop.test):
+                    ended = True
+                    break
+            else:
+                if not self.exists(pos):
+                    ended = True
+                    break
+                env[self.loopvars[0]] = SStr([subj.atom(pos)])
+                if idxvar:
+                    env[idxvar] = pos
+            try:
+                self.run(loop.body, env)  # type: ignore[union-attr]
+            except _Continue:
+                pass
+            if isinstance(loop, ast.For):
+                pos += 1
+        if not ended:
+            raise AnalysisError(f'{self.where}: the loop does not come back to its initial state within {self.MAX_EXTRA} characters after the unit; not decided')
+        # the text ended inside / right after the unit with loop state pending: the statements after the loop finish the job
+        self.run(self.post, env)
+        # the loop ran to the end of the text: it consumed the unit and every continuation character that exists in this case
+        k = 0
+        while self._known_existing(subj, subj.n + k) and k <= self.MAX_EXTRA + 2:
+            k += 1
+        return subj.n + k, self.acc_atoms(env)
+
+    def _known_existing(self, subj: Subject, i: int) -> bool:
+        v = subj.store.vals.get(('k', subj.stage, i - subj.n))
+        if v is None or v == END:
+            return False
+        for j in range(i - subj.n):
+            if subj.store.vals.get(('k', subj.stage, j)) == END:
+                return False
+        return True
 
 
 # ---------------------------------------------------------------------------------------------------------------------
@@ -1418,7 +1870,31 @@ def decoder_stages(m: pf.Module, fn: pf.FuncDef, early: Optional[List[ast.If]] =
             raise AnalysisError(f'{m.rel}::{fn.name}: the parameter is rebound')
     where = f'{m.rel}::{fn.name}'
     found: List[ast.If] = []
-    cur = _function_body_return(m, fn, param, found)
+    try:
+        cur = _function_body_return(m, fn, param, found)
+    except AnalysisError as first:
+        loops = [st for st in fn.body if isinstance(st, (ast.While, ast.For))]
+        if len(loops) != 1 or not isinstance(fn.body[-1], ast.Return) or fn.body[-1].value is None:
+            raise first
+        k = fn.body.index(loops[0])
+        pre: List[ast.stmt] = []
+        found = []
+        for st in fn.body[:k]:
+            if isinstance(st, ast.Expr) and isinstance(st.value, ast.Constant) or isinstance(st, ast.FunctionDef):
+                continue
+            if isinstance(st, ast.If) and not st.orelse and len(st.body) == 1 and isinstance(st.body[0], ast.Return) and isinstance(st.body[0].value, ast.Name) \
+                    and st.body[0].value.id == param and not pre:
+                found.append(st)
+                continue
+            if not isinstance(st, ast.Assign):
+                raise first
+            pre.append(st)
+        if found and early is None:
+            raise first
+        if early is not None:
+            early += found
+        stage = LoopEval(m, fn, param, pre, loops[0], list(fn.body[k + 1:-1]), fn.body[-1].value, where)
+        return [stage], [('loop', type(loops[0]).__name__.lower(), pf.nsrc(loops[0].test if isinstance(loops[0], ast.While) else loops[0].iter)[:60])]
     if found and early is None:
         raise AnalysisError(f'{where}: unrecognised body (early exit `{pf.nsrc(found[0].test)[:50]}`)')
     if early is not None:
@@ -1426,15 +1902,20 @@ def decoder_stages(m: pf.Module, fn: pf.FuncDef, early: Optional[List[ast.If]] =
     ops: List[tuple] = []   # outermost first while walking
     mods, funcs = sp._re_module_names(m)
     guard = 0
+    fn_c, param_c = fn, param            # the function whose body is being read (helpers are inlined)
+    stack: List[Tuple[pf.FuncDef, str, ast.AST]] = []
     while True:
         guard += 1
         if guard > 40:
             raise AnalysisError(f'{where}: unrecognised body (chain too long)')
         if isinstance(cur, ast.Name):
-            if cur.id == param:
-                break
-            if cur.id in pf.assignments(fn):
-                d = pf.single_def(fn, cur.id)
+            if cur.id == param_c:
+                if not stack:
+                    break
+                fn_c, param_c, cur = stack.pop()
+                continue
+            if cur.id in pf.assignments(fn_c):
+                d = pf.single_def(fn_c, cur.id)
                 if d is not None and isinstance(d, ast.expr):
                     cur = d
                     continue
@@ -1445,45 +1926,74 @@ def decoder_stages(m: pf.Module, fn: pf.FuncDef, early: Optional[List[ast.If]] =
             kw = {k.arg: k.value for k in cur.keywords}
             # re.sub(pattern, repl, string[, count, flags])
             if (isinstance(f, ast.Attribute) and isinstance(f.value, ast.Name) and f.value.id in mods and f.attr == 'sub') or \
-                    (isinstance(f, ast.Name) and funcs.get(f.id) == 'sub' and f.id not in pf.assignments(fn)):
+                    (isinstance(f, ast.Name) and funcs.get(f.id) == 'sub' and f.id not in pf.assignments(fn_c)):
                 args = list(cur.args)
                 if None in kw or not set(kw) <= {'flags'} or len(args) not in (3,):
                     raise AnalysisError(f'{where}: unrecognised body (`{pf.nsrc(cur)[:60]}`: re.sub with count / keyword arguments is not modelled)')
                 try:
-                    rd = sp.resolve_regex(m, fn, args[0])
+                    rd = sp.resolve_regex(m, fn_c, args[0])
                     if 'flags' in kw:
                         raise AnalysisError(f'{where}: flags together with a compiled pattern')
                     pattern, flags = rd.pattern, rd.flags
                 except AnalysisError:
-                    pattern, flags = sp.const_string(m, fn, args[0]), sp.flags_value(m, kw.get('flags'))
-                ops.append(('sub', pattern, flags, args[1], pf.nsrc(cur)[:80]))
+                    pattern, flags = sp.const_string(m, fn_c, args[0]), sp.flags_value(m, kw.get('flags'))
+                ops.append(('sub', pattern, flags, args[1], pf.nsrc(cur)[:80], fn_c))
                 cur = args[2]
                 continue
             # P.sub(repl, string)
             if isinstance(f, ast.Attribute) and f.attr == 'sub' and len(cur.args) == 2 and not kw:
-                rd = sp.resolve_regex(m, fn, f.value)
-                ops.append(('sub', rd.pattern, rd.flags, cur.args[0], pf.nsrc(cur)[:80]))
+                rd = sp.resolve_regex(m, fn_c, f.value)
+                ops.append(('sub', rd.pattern, rd.flags, cur.args[0], pf.nsrc(cur)[:80], fn_c))
                 cur = cur.args[1]
                 continue
             if isinstance(f, ast.Attribute) and f.attr == 'replace' and len(cur.args) == 2 and not kw:
-                ops.append(('replace', sp.const_string(m, fn, cur.args[0]), sp.const_string(m, fn, cur.args[1])))
+                ops.append(('replace', sp.const_string(m, fn_c, cur.args[0]), sp.const_string(m, fn_c, cur.args[1])))
                 cur = f.value
                 continue
             if isinstance(f, ast.Attribute) and f.attr in ('encode', 'decode') and len(cur.args) <= 1 and not kw and d not in ('codecs.encode', 'codecs.decode'):
-                ops.append((f.attr, _norm_codec(sp.const_string(m, fn, cur.args[0]) if cur.args else 'utf-8')))
+                ops.append((f.attr, _norm_codec(sp.const_string(m, fn_c, cur.args[0]) if cur.args else 'utf-8')))
+                cur = f.value
+                continue
+            if isinstance(f, ast.Attribute) and f.attr == 'encode' and d != 'codecs.encode' and 1 <= len(cur.args) + len(kw) <= 2 and set(kw) <= {'encoding', 'errors'} \
+                    and len(cur.args) <= 2:
+                enc_e = cur.args[0] if cur.args else kw.get('encoding')
+                err_e = cur.args[1] if len(cur.args) == 2 else kw.get('errors')
+                enc_s = _norm_codec(sp.const_string(m, fn_c, enc_e)) if enc_e is not None else 'utf8'
+                err_s = sp.const_string(m, fn_c, err_e) if err_e is not None else 'strict'
+                if err_s not in ('strict', 'backslashreplace'):
+                    raise AnalysisError(f'{where}: unrecognised body (error handler {err_s!r} of `{pf.nsrc(cur)[:50]}` is not modelled)')
+                ops.append(('encode', enc_s + ('+backslashreplace' if err_s == 'backslashreplace' and enc_s in ('ascii', 'latin1') else '')))
                 cur = f.value
                 continue
             if d in ('bytes', 'str') and len(cur.args) == 2 and not kw and not sp.module_bindings(m, d):
-                ops.append(('encode' if d == 'bytes' else 'decode', _norm_codec(sp.const_string(m, fn, cur.args[1]))))
+                ops.append(('encode' if d == 'bytes' else 'decode', _norm_codec(sp.const_string(m, fn_c, cur.args[1]))))
                 cur = cur.args[0]
                 continue
             if d in ('codecs.encode', 'codecs.decode') and sp.imports_of(m).get('codecs') == 'codecs' and len(cur.args) == 2 and not kw:
-                ops.append((d.split('.')[1], _norm_codec(sp.const_string(m, fn, cur.args[1]))))
+                ops.append((d.split('.')[1], _norm_codec(sp.const_string(m, fn_c, cur.args[1]))))
                 cur = cur.args[0]
                 continue
             if d == 'str' and len(cur.args) == 1 and not kw:
                 cur = cur.args[0]
                 continue
+            # a helper of this module with one parameter whose body is itself a chain: inlined
+            if isinstance(f, ast.Name) and len(cur.args) == 1 and not kw and f.id not in pf.assignments(fn_c) and len(stack) < 3:
+                hb = sp.module_bindings(m, f.id)
+                if len(hb) == 1 and isinstance(hb[0], ast.FunctionDef) and not hb[0].decorator_list:
+                    h = hb[0]
+                    ha = h.args
+                    hp = [x.arg for x in ha.posonlyargs + ha.args]
+                    if len(hp) == 1 and not ha.vararg and not ha.kwarg and not ha.kwonlyargs and h is not fn_c and all(h is not x[0] for x in stack):
+                        for n in pf.walk_shallow(h):
+                            if isinstance(n, ast.Name) and isinstance(n.ctx, (ast.Store, ast.Del)) and n.id == hp[0]:
+                                raise AnalysisError(f'{where}: unrecognised body (the helper {h.name} rebinds its parameter)')
+                        none_early: List[ast.If] = []
+                        hret = _function_body_return(m, h, hp[0], none_early)
+                        if none_early:
+                            raise AnalysisError(f'{where}: unrecognised body (early exit inside the helper {h.name})')
+                        stack.append((fn_c, param_c, cur.args[0]))
+                        fn_c, param_c, cur = h, hp[0], hret
+                        continue
         raise AnalysisError(f'{where}: unrecognised body (unrecognised string operation `{pf.nsrc(cur)[:60]}`)')
     ops.reverse()
     stages: List[Any] = []
@@ -1499,12 +2009,12 @@ def decoder_stages(m: pf.Module, fn: pf.FuncDef, early: Optional[List[ast.If]] =
             summary.append(op)
             i += 1
         elif op[0] == 'sub':
-            stages.append(SubStage(Matcher(op[1], op[2], where), _callback(m, fn, op[3], where), f'`{op[4]}` (pattern {op[1]!r})'))
+            stages.append(SubStage(Matcher(op[1], op[2], where), _callback(m, op[5], op[3], where), f'`{op[4]}` (pattern {op[1]!r})'))
             summary.append(('sub', op[1], op[2]))
             i += 1
         elif op[0] == 'encode' and i + 1 < len(ops) and ops[i + 1][0] == 'decode':
             enc, dec = op[1], ops[i + 1][1]
-            if dec == 'unicodeescape' and enc in ('utf8', 'ascii', 'latin1'):
+            if dec == 'unicodeescape' and enc in ('utf8', 'ascii', 'latin1') + CodecStage.KEEPS_NON_ASCII:
                 stages.append(CodecStage(enc, f'.encode({enc!r}).decode(\'unicode_escape\')'))
             elif dec == enc == 'utf8':
                 stages.append(IdentityStage('.encode/.decode utf-8'))
